@@ -14,5 +14,6 @@ func init() {
 		gfSpec{Pkg: "./pkg/core/native", Recv: "NEO", Func: "calculateBonus", Lean: "neoCalculateBonus"},
 		gfSpec{Pkg: "./pkg/core/native", Recv: "NEO", Func: "dropCandidateIfZero", Lean: "neoDropCandidateIfZero"},
 		gfSpec{Pkg: "./pkg/core/native", Recv: "nep17TokenNative", Func: "transferDeferrable", Lean: "nep17Transfer"},
+		gfSpec{Pkg: "./pkg/core/native", Recv: "GAS", Func: "increaseBalance", Lean: "gasIncreaseBalance"},
 	)
 }
